@@ -5,11 +5,12 @@
 -/
 import WD.Proofs.Pipeline.Theorems
 import WD.Proofs.Pipeline.FlatSpec
+import WD.Proofs.Pipeline.BurstFiles
 /-
   `_partial`: the theorems quantify over all initial trees and all histories of valid operations, but in the
-  regime "the stream drains after every operation" (`Sys.op`).  The property also allows file operations issued
-  back to back under its pacing condition; that regime (reader lagging behind the operations, arbitrary splits of
-  the kernel buffer) is not in the model — it is exercised on the real observer only (harness/pipe_check.py).
+  regime "the stream drains after every operation" (`Sys.op`), plus bursts of FILE operations issued back to back and
+  read as one batch (`coverage_after_file_burst_partial`).  Bursts that create, rename or move directories under the
+  property's pacing condition are exercised on the real observer and compared with the burst model (harness/pipe_check.py).
 -/
 namespace WD.C02
 open WD WD.Pipe
@@ -108,5 +109,46 @@ example :
     ((((Sys.start fs0 true false).run ops).1).op (.create ["W", "b", "x"])).2.map PEv.toEvent =
       [⟨.FileCreatedEvent, "W/b/x", "", false⟩, ⟨.DirModifiedEvent, "W/b", "", false⟩, ⟨.FileOpenedEvent, "W/b/x", "", false⟩,
        ⟨.FileClosedEvent, "W/b/x", "", false⟩, ⟨.DirModifiedEvent, "W/b", "", false⟩] := by decide +kernel
+
+/-- coverage survives file operations issued back to back: after any drained history and a burst of file operations
+    read as one batch (`Sys.burst`), every directory of the tree is still watched under its real current path -/
+theorem coverage_after_file_burst_partial (fs0 : FS) (hwf : fs0.WF) (full : Bool) (pre burst : List Op)
+    (hv : allValid (Sys.start fs0 true full) pre = true) (hroot : Op.rmdir ["W"] ∉ pre)
+    (hb : allFile ((Sys.start fs0 true full).run pre).1 burst = true) :
+    Covered (((Sys.start fs0 true full).run pre).1.burst burst).1 := by
+  obtain ⟨inv, hs, hc, _, _⟩ := start_rec fs0 hwf full
+  have hr := run_rec _ pre inv hs hc hv
+  have hst : ((Sys.start fs0 true full).run pre).1.stopped = false := by
+    cases h : ((Sys.start fs0 true full).run pre).1.stopped
+    · rfl
+    · exact absurd ((stopped_iff _ pre inv hs hc hv).1 h) hroot
+  rw [burst_files _ burst (hr.2.2 hst) hst hr.2.1 hb]
+  have hv2 : allValid (Sys.start fs0 true full) (pre ++ burst) = true := by
+    rw [allValid_append, hv, allValid_of_allFile burst _ hb]; rfl
+  have hfin : (((Sys.start fs0 true full).run pre).1.run burst).1 = ((Sys.start fs0 true full).run (pre ++ burst)).1 := by
+    rw [run_append]
+  have hns2 : ((Sys.start fs0 true full).run (pre ++ burst)).1.stopped = false := by
+    cases h : ((Sys.start fs0 true full).run (pre ++ burst)).1.stopped
+    · rfl
+    · have hm := (stopped_iff _ (pre ++ burst) inv hs hc hv2).1 h
+      rcases List.mem_append.1 hm with hm | hm
+      · exact absurd hm hroot
+      · -- a burst of file operations does not remove the root
+        exfalso
+        have : ∀ (ops : List Op) (s : Sys), allFile s ops = true → Op.rmdir ["W"] ∉ ops := by
+          intro ops
+          induction ops with
+          | nil => intro _ _; simp
+          | cons o rest ih =>
+            intro s h
+            simp only [allFile, Bool.and_eq_true] at h
+            intro hmem
+            rcases List.mem_cons.1 hmem with e | e
+            · subst e; simp [fileKind, simpleKind] at h
+            · exact ih _ h.2 e
+        exact this burst _ hb hm
+  show Covered (((Sys.start fs0 true full).run pre).1.run burst).1
+  rw [hfin]
+  exact coverage_inv_partial fs0 hwf full (pre ++ burst) hv2 hns2
 
 end WD.C02
